@@ -621,6 +621,8 @@ class Report:
             self.samples.append({"rule": rid, "instance": key, "detail": sample})
 
     def add(self, f: Finding) -> None:
+        if any(g.key == f.key for g in self.findings):
+            return
         self.findings.append(f)
         self.rules.setdefault(f.rule, {"text": "", "instances": 0, "violations": 0})["violations"] += 1
 
